@@ -285,6 +285,13 @@ Pack(sec, gc) ==
         /\ res' = [call |-> "pack", out |-> r.out, T |-> T, gc |-> gc]
   /\ UNCHANGED <<txn, lastTs, clock, maxOid, issued, begun, ltid>>
 
+\* a pack that cannot complete (a low-level write of the .pack file fails): the database is unchanged and usable
+PackFail(sec, gc) ==
+  /\ IsFile /\ txn = NoTxn /\ sec \in 0..(MaxClock + 1)
+  /\ OidsOf(hist) # {} /\ FilePack(hist, PackT(sec), gc).out = "ok"      \* only a pack that would write something can fail
+  /\ res' = [call |-> "pack", out |-> "OSError", T |-> PackT(sec), gc |-> gc]
+  /\ UNCHANGED <<hist, txn, lastTs, clock, maxOid, issued, begun, ltid, packed, obs>>
+
 SerialRange == {0} \cup {c * K + b : c \in 1..(MaxClock + 1), b \in 0..(MaxTxn + 1)}   \* every tid the model can produce
 WrongCalls == {"store", "vote", "finish", "abort", "undo", "checkCurrent", "delete"}
 
@@ -377,6 +384,17 @@ NextPack ==
   \/ \E c \in Client : AbortFailed(c)
   \/ \E sec \in 0..(MaxClock + 1), gc \in BOOLEAN : PackQ(sec, gc)
   \/ CloseReopenQ
+\* failing packs between commits
+PackFailQ(sec, gc) == res.call \in {"finish", "pack"} /\ Len(hist) >= 2 /\ PackFail(sec, gc)
+NextPackFail ==
+  \/ \E c \in Client, m \in Metas, clk \in 1..MaxClock : Begin(c, m, clk)
+  \/ \E c \in Client, o \in Oids, s \in SerialRange, d \in Datums : Store(c, o, s, d)
+  \/ \E c \in Client, t \in SerialRange : Undo(c, t)
+  \/ \E c \in Client : Vote(c)
+  \/ \E c \in Client : Finish(c)
+  \/ \E c \in Client : AbortFailed(c)
+  \/ \E sec \in 0..(MaxClock + 1), gc \in BOOLEAN : PackFailQ(sec, gc)
+  \/ \E sec \in 0..(MaxClock + 1), gc \in BOOLEAN : PackQ(sec, gc)
 \* oid-allocation heavy: stores and restores of arbitrary (also never issued) oids, aborts, reopen
 RestoreAny(c, o, d) == Restore(c, o, d, 0)
 NextOid ==
